@@ -164,3 +164,17 @@ def random_perm(rng, n):
     p = list(range(n))
     rng.shuffle(p)
     return p
+
+
+def cfi_graphs(max_atoms):
+    """the CFI benchmark graphs shipped with the repository (non-isomorphic twins that defeat colour refinement), as carbon skeletons"""
+    out = []
+    for f in sorted(glob.glob(os.path.join(REPO, "tests/cfi_rigid_benchmark_graphs/*.col"))):
+        lines = [l.split() for l in open(f).read().splitlines()]
+        head = [l for l in lines if l and l[0] == "p"]
+        if not head or int(head[0][2]) > max_atoms:
+            continue
+        n = int(head[0][2])
+        edges = [(int(l[1]) - 1, int(l[2]) - 1, 1) for l in lines if l and l[0] == "e"]
+        out.append((os.path.basename(f)[:-4], mol([("C", 0, 0, 0)] * n, edges)))
+    return out
